@@ -40,7 +40,16 @@ def server_constants(key):
                 AllowStreamDrop=False, FreshIdsOnly=False, AtomicPolls=True, ExportSched=False)
 
 
+def keys_group(reset):
+    return (reset.get("n", 1),)
+
+
+def keys_constants(key):
+    return dict(Keys="<-MechKeys", Limit=key[0], MaxArrivals=80, AtomicPolls=True, FixF1=True, ExportSched=False)
+
+
 FAMILIES = {
+    "keys": dict(module="Trace_KeysMech", group=keys_group, constants=keys_constants),
     "client": dict(module="Trace_ClientMech", group=client_group, constants=client_constants),
     "server": dict(module="Trace_ServerMech", group=server_group, constants=server_constants),
 }
